@@ -189,6 +189,13 @@ theorem C06_describe_eq_description {D S R Q} (e : Engine D R Q) (descOf : Q →
     (describe e descOf c i q params).2 = (description e c i).2 := by
   simp [describe, description, hc, hlast, hpar]
 
+/-- **`execute_string`: every returned cursor describes its own statement**: the i-th cursor of a script is described by
+    `DESCRIBE <statement i>` — not by the last statement of the script — whatever the other statements are. -/
+theorem C06_script_cursor_own_description {D S R Q} (e : Engine D R Q) (d : D) (s : S) (stmts : List Q) (i : Nat) (q : Q)
+    (hq : stmts[i]? = some q) :
+    (description e ⟨d, s, scriptCursors stmts⟩ i).2 = (e.describe d (some q) none).2 := by
+  simp [description, scriptCursors, List.getElem?_map, hq]
+
 /-- **`describe()` of a seeded query sends no `setseed`**: the seed prefix is added only when the *top-level*
     statement carries the seed; under a DESCRIBE wrapper exactly one statement — the DESCRIBE — is sent, so the
     session's random generator is not touched.  (Executing the seeded query itself does send the prefix.) -/
